@@ -17,6 +17,8 @@ import YowsupVerif.Drv.PreKeys
 import YowsupVerif.Drv.Trust
 import YowsupVerif.Drv.E2E
 import YowsupVerif.Drv.Payload
+import YowsupVerif.Drv.Conc
+import YowsupVerif.Drv.Handshake
 open Yow Yow.Drv
 
 structure DrvState where
@@ -29,12 +31,15 @@ structure DrvState where
   pk : PkSt := {}
   trust : Yow.Trust.St := Yow.Trust.init
   e2e : Yow.E2E.Sys := {}
+  hs : Yow.HS.St := {}
 
 def step (s : DrvState) (line : String) : DrvState × String :=
   match (line.splitOn " ").filter (· ≠ "") with
   | "seg" :: rest => let r := segStep s.seg rest; ({ s with seg := r.1 }, r.2)
   | "coder" :: rest => (s, coderStep rest)
   | "iq" :: rest => let r := iqStep s.iq rest; ({ s with iq := r.1 }, r.2)
+  | "hs" :: rest => let r := hsStep Yow.Gen.hsCfg s.hs rest; ({ s with hs := r.1 }, r.2)
+  | "conc" :: rest => (s, concStep rest)
   | "pl" :: rest => (s, payloadStep rest)
   | "e2e" :: rest => let r := e2eStep s.e2e rest; ({ s with e2e := r.1 }, r.2)
   | "trust" :: rest => let r := trustStep s.trust rest; ({ s with trust := r.1 }, r.2)
